@@ -64,6 +64,8 @@ package auth
 //@   let ts = atoi(timestamp)
 //@   ensures [C07] signed_and_fresh: result <==> redirectURI != "" && sigVal != "" && timestamp != "" && secret != "" && called(@Parse#1) && arg(@Parse#1, 0) == redirectURI && @Parse#1.1 == nil && called(@DecodeString#1) && arg(@DecodeString#1, 0) == base64.URLEncoding && arg(@DecodeString#1, 1) == sigVal && @DecodeString#1.1 == nil && atoi_ok(timestamp) && clock - unixTime(ts) <= 300000000000 && @DecodeString#1.0 == hmacOf(secret, redirectURI + itoa(ts))
 
+//@   ensures [C07 C19] as_predicate: result <==> acceptsSigned(base64.URLEncoding, redirectURI, sigVal, timestamp, secret, clock)
+
 //@ func redirectURLSignature(rawRedirect string, timestamp time.Time, secret string) []byte
 //@   modifies nothing
 //@   ensures [C07 C19] mac_of_uri_and_seconds: result == hmacOf(secret, rawRedirect + itoa((timestamp - unixTime(0)) / 1000000000))
@@ -78,3 +80,15 @@ package auth
 //@   sink [C08] exactly_that_session: Marshal requires R.Email == S.Email && R.AccessToken == S.AccessToken && R.RefreshToken == S.RefreshToken
 //@   ensures [C08] ok_only_with_tokens: rw.$status == 200 ==> called(@Marshal#1) && @Marshal#1.1 == nil
 //@   ensures [C08] bad_code_is_401: called(@UnmarshalSession#1) && @UnmarshalSession#1.1 != nil ==> rw.$status == 401 && !called(@Marshal#1)
+
+// ---- C19: confirming sign-out ------------------------------------------------------------------------------
+// target: the redirect_uri form value the signature and in-domain gates validated (wiring: /sign_out).
+//@ func (p *Authenticator) SignOut(rw http.ResponseWriter, req *http.Request)
+//@   requires fresh_response: rw.$status == 0 && rw.$sessionCookie == 0
+//@   requires form_parsed_by_gates: req.Form != nil
+//@   sink [C07 C19] returns_only_to_validated_uri: Redirect requires $arg0 == rw && $arg2 == old(formGet(req.Form, "redirect_uri"))
+//@   sink [C19] clear_only_after_revoke: ClearSession requires $arg0 == rw && ((called(@Revoke#1) && @Revoke#1 == nil) || (called(@LoadSession#1) && @LoadSession#1.1 != nil && @LoadSession#1.1 != http.ErrNoCookie))
+//@   ensures [C19] revokes_the_loaded_session: called(@Revoke#1) ==> called(@LoadSession#1) && @LoadSession#1.1 == nil && arg(@Revoke#1, 1) == @LoadSession#1.0 && old(req.Method) != "GET"
+//@   ensures [C19] revoke_failure_keeps_cookie: called(@Revoke#1) && @Revoke#1 != nil ==> rw.$sessionCookie == 0
+//@   ensures [C19] success_clears_and_returns: called(@Revoke#1) && @Revoke#1 == nil ==> rw.$sessionCookie == 2 && rw.$status == 302 && rw.$location == old(formGet(req.Form, "redirect_uri"))
+//@   ensures [C19] get_never_signs_out: old(req.Method) == "GET" ==> !called(@Revoke#1) && rw.$sessionCookie == 0
